@@ -33,8 +33,8 @@ func init() {
 		Model: "client/backend actors; the backend parses the address with its own code"})
 	Register(&Scenario{Prop: "C20", Desc: "velocity modern forwarding authentic and negotiated like Velocity", Run: func(r *Run) { runForwarding(r, "C20") },
 		Quick: 400, Thorough: 60000,
-		Real:  "proxy.Proxy: backendLoginSessionHandler.handleLoginPluginMessage/handleServerLoginSuccess, internal/velocity.CreateForwardingData",
-		Model: "backend actor in Paper mode (independent parser + HMAC check); refForwardingVersion = reference of Velocity's negotiation",
+		Real:   "proxy.Proxy: backendLoginSessionHandler.handleLoginPluginMessage/handleServerLoginSuccess, internal/velocity.CreateForwardingData",
+		Model:  "backend actor in Paper mode (independent parser + HMAC check); refForwardingVersion = reference of Velocity's negotiation",
 		Assume: []string{"players carry no signed chat key (1.19-1.19.2 key revisions are not simulated): the key branches of the negotiation are not reached"}})
 }
 
@@ -78,22 +78,26 @@ func runForwarding(r *Run, prop string) {
 		cfg.Forwarding.BungeeGuardSecret = secret
 	})
 	proxyEvents(w)
-	host := "play.example.com"
+	// the player's host (what must come first in the backend address) and an optional Forge
+	// marker: hosts ending in letters / digits that also occur in the markers included
+	host := []string{"play.example.com", "Play.Example.COM", "mc.h-o-s-t.example", "192.168.7.9", "10.0.0.3", "192.168.1.22", "PLAY.EXAMPLE.ORG", "mc.FML", "srv.FORGE2", "host23"}[r.W.Pick(10)]
 	switch r.W.Pick(6) {
 	case 1:
-		host = "Play.Example.COM"
-	case 2:
 		if prot.Lower(version.Minecraft_1_13) {
-			host = "play.example.com\x00FML\x00"
+			host += "\x00FML\x00"
+		}
+	case 2:
+		if prot.GreaterEqual(version.Minecraft_1_13) && prot.Lower(version.Minecraft_1_20_2) {
+			host += "\x00FML2\x00"
 		}
 	case 3:
-		if prot.GreaterEqual(version.Minecraft_1_13) && prot.Lower(version.Minecraft_1_20_2) {
-			host = "play.example.com\x00FML2\x00"
+		if prot.GreaterEqual(version.Minecraft_1_18) && prot.Lower(version.Minecraft_1_20_2) {
+			host += "\x00FML3\x00"
 		}
 	case 4:
-		host = "mc.h-o-s-t.example"
-	case 5:
-		host = "192.168.7.9"
+		if prot.GreaterEqual(version.Minecraft_1_20_2) {
+			host += []string{"\x00FORGE", "\x00FORGE2"}[r.W.Pick(2)]
+		}
 	}
 	port := []int{25565, 25566, 1, 65535}[r.W.Pick(4)]
 	beh := &w.backends["lobby"].Beh
@@ -196,7 +200,7 @@ func runForwarding(r *Run, prop string) {
 				r.Fail("player-host-not-first", string(mode), "first NUL-part of the backend address is %q, the player's host is %q: %s", parts[0], playerHost, desc())
 				return
 			}
-			if strings.Contains(host, "\x00FML") && !strings.Contains(addr, "FML") {
+			if (strings.Contains(host, "\x00FML") && !strings.Contains(addr[len(parts[0]):], "FML")) || (strings.Contains(host, "\x00FORGE") && !strings.Contains(addr[len(parts[0]):], "FORGE")) {
 				r.Fail("forge-marker-lost", string(mode), "Forge client marker is missing in the backend address: %s", desc())
 				return
 			}
